@@ -3,7 +3,7 @@ from tools.vlib import *
 from props.C27 import harness, extract, hx, cfg, SECOND
 
 PID = "C29"
-READY = False
+READY = True
 MANIFEST = {
     "level_text": "Lean 4 theorems about the byte-level model of send_response (with encode_field_value) and of ControlClient's "
                   "recv_line / parse_response (with decode_field_value). C29.roundtrip: for every success flag, every field map whose keys "
